@@ -49,7 +49,7 @@ def plan(mode, quick, seed):
 
 def gen_cases(ctx, mode, design=1):
     plans, off = plan(mode, ctx.quick, ctx.seed)
-    timeout = 900 if ctx.quick else 3600
+    timeout = 2400 if ctx.quick else 9000
 
     def run(nax):
         env = dict(plans[nax])
@@ -292,7 +292,7 @@ def run_obs(ctx, recs, tag, chunk=250):
         with open(path, "w") as f:
             for r in chunks[k]:
                 f.write(json.dumps(r, separators=(",", ":")) + "\n")
-        r = common.run_tlc(ctx, "InstancingObs", "InstancingObs.cfg", workers=2, timeout=1800 if ctx.quick else 5400,
+        r = common.run_tlc(ctx, "InstancingObs", "InstancingObs.cfg", workers=2, timeout=2400 if ctx.quick else 9000,
                            env={"OBS": path}, tag="%s_obs%d" % (tag, k), xmx="4g")
         return k, r
 
@@ -536,7 +536,9 @@ def fixtures_check(ctx, pid, check, only=None):
         report(ctx, pid, rec["id"], verdicts[rec["id"]], {"fixture": rec["id"].split(":", 1)[1]}, stats, "fixture ")
         ev.traces += 1
         ev.nontrivial_add(rec["id"])
-        ev.evaluations += sum(len(g["at"]) for g in rec["glyphs"])
+        ev.evaluations += 1
+        ev.extra["fixture_glyph_location_evaluations"] = ev.extra.get("fixture_glyph_location_evaluations", 0) + \
+            sum(len(g["at"]) for g in rec["glyphs"] if g.get("kind") != "skip")
     ev.extra["fixtures_validated"] = [r["id"] for r in recs]
     ev.extra["fixture_notes"] = stats
     if recs:
